@@ -79,7 +79,10 @@ def run_copies(ctx, out):
         d = os.path.join(d0, "c%d" % k)
         os.makedirs(d)
         sizes = trees.SizeAlloc(rng, small=rng.random() < 0.7)
-        tree = trees.gen_dir(rng, rng.choice([1, 2, 3]), rng.choice([3, 5]), sizes, specials=0.0)
+        # a third of the trees carry FIFOs / sockets / device nodes: their failure path sends no update of its own, the
+        # copy call's result is then the only report
+        tree = trees.gen_dir(rng, rng.choice([1, 2, 3]), rng.choice([3, 5]), sizes, specials=(0.25 if k % 3 == 2 else 0.0),
+                             link_targets=[b"a", b"../a", b"nowhere", b"b/c", b"./x"])
         trees.materialise(tree, os.fsencode(os.path.join(d, "src")))
         os.mkdir(os.path.join(d, "dst"))
         driver = rng.choice(["parfile", "parblock"])
@@ -89,7 +92,17 @@ def run_copies(ctx, out):
         fault = None
         rules = []
         files = [(rel, n) for rel, n in trees.walk_files(tree) if n[0] == "file" and n[1] > 0]
-        if files and rng.random() < 0.5:
+        others = [(rel, n) for rel, n in trees.walk_files(tree) if n[0] in ("fifo", "sock", "chr", "link")]
+        if others and (k % 3 == 2 or rng.random() < 0.2):
+            rel, n = rng.choice(others)
+            victim = os.path.join(d, "dst", "src", os.fsdecode(rel))
+            if n[0] == "link":
+                fault = "symlink-EIO"
+                rules = [("fail", 5, 0, "symlink", 1, "=" + victim), ("fail", 5, 0, "symlinkat", 1, "=" + victim)]
+            else:
+                fault = "mknod-EPERM"
+                rules = [("fail", 1, 0, "mknodat", 1, "=" + victim), ("fail", 1, 0, "mknod", 1, "=" + victim)]
+        elif files and rng.random() < 0.5:
             rel, n = rng.choice(files)
             victim = os.path.join(d, "dst", "src", os.fsdecode(rel))
             fault = rng.choice(["cfr-EIO", "ftruncate-ENOSPC", "open-EACCES", "cfr-zero", "cfr-zero"])
@@ -116,6 +129,7 @@ def run_copies(ctx, out):
                    argv=argv, stdout=run.stdout[-600:], stderr=run.stderr[-300:], exit=run.exit)
         out.case(("copy", k, driver, workers, bs, upd, fault), nontrivial=len(files) >= 2)
         out.count("copy_%s_%s" % (upd, "fault" if fault else "clean"))
+        out.count("fault_" + (fault.split("@")[0] if fault else "none"))
         if run.meta.get("timeout") or run.exit == 124:
             out.violation("copy() / update stream did not end within the time bound", rep)
             continue
@@ -207,6 +221,10 @@ def run_copies(ctx, out):
                     same = False
                 if not same:
                     incomplete = True
+            elif n[0] in ("fifo", "sock", "chr", "link"):
+                pdst = os.path.join(os.fsencode(d), b"dst", b"src", rel)
+                if not os.path.lexists(pdst) or (n[0] == "link") != os.path.islink(pdst):
+                    incomplete = True
         had_error = any(t.startswith("E") or t.startswith("D E") for t in texts) or not ret.startswith("RET ok")
         if incomplete and not had_error:
             out.violation("destination incomplete but no Error update was sent and copy() returned Ok", rep)
@@ -239,7 +257,7 @@ def run(ctx, out):
     out.rule = ("(a) ChannelUpdater::send on generated send sequences x block sizes {1,2,7,100,4096,1MiB,u64::MAX,random} vs the "
                 "model's batching filter; (b) library copies (probe linked against libxcp) of generated trees with a recording "
                 "client updater, the real ChannelUpdater, and a wrapper logging the send order; both drivers, workers 1-8, random "
-                "thread holds, single injected faults; updates are written to fd 9 so the supervisor orders them with the data "
+                "thread holds, single injected faults (data calls, and symlink / mknod of trees with links and special files); updates are written to fd 9 so the supervisor orders them with the data "
                 "calls. non-trivial = >=2 Copied sends / tree with >=2 non-empty files; distinct by input")
     run_channel_r0(ctx, out)
     run_copies(ctx, out)
